@@ -165,3 +165,39 @@ Theorem C11_run_with_getDt_equivariant (c : cons Rops) npos Tcur Tprev vmAlpha d
   dt (kwn_run _ _ dt upd n (reorder d ps idx)) = dt (kwn_run _ _ dt upd n ps).
 Proof. exact (run_with_getDt_equivariant c npos Tcur Tprev vmAlpha dtPrev dtMax upd n d ps idx). Qed.
 Print Assumptions C11_run_with_getDt_equivariant.
+
+(* ---------------------------------------------------------------------------------------- *)
+(* Part D - diffusion profiles and per-phase inputs of the growth law                        *)
+(* CompositionProfile.buildProfile: the row of the i-th element of the model's list is the result of the steps
+   registered for that element ... *)
+Theorem C11_build_profile_by_name {K Step Row : Type} (keq : K -> K -> bool) (apply : Step -> Row -> Row)
+        (els : list K) (steps : list (K * list Step)) (z : Row) :
+  buildProfile keq apply els steps (repeat z (length els)) = map (fun e => row_of keq apply steps e z) els.
+Proof. exact (buildProfile_zero keq apply els steps z). Qed.
+Print Assumptions C11_build_profile_by_name.
+
+(* ... so listing the elements in another order permutes the profile rows accordingly and changes nothing else *)
+Theorem C11_build_profile_equivariant {K Step Row : Type} (keq : K -> K -> bool) (apply : Step -> Row -> Row)
+        (els : list K) (steps : list (K * list Step)) (z dr : Row) (de : K) (idx : list nat) :
+  Forall (fun i => i < length els) idx ->
+  buildProfile keq apply (reorder de els idx) steps (repeat z (length idx)) =
+  reorder dr (buildProfile keq apply els steps (repeat z (length els))) idx.
+Proof. exact (buildProfile_equivariant keq apply els steps z dr de idx). Qed.
+Print Assumptions C11_build_profile_equivariant.
+
+(* the Gibbs-Thomson energies looked up by a phase's own name are that phase's, on its own size classes; and what
+   a phase is handed does not depend on where it is listed *)
+Theorem C11_particle_gibbs_by_name {P A B : Type} (gname : P -> nat) (gbounds : P -> A) (gibbs : P -> A -> B)
+        (ps : list P) (d : P) (p : nat) :
+  NoDup (map gname ps) -> p < length ps ->
+  particleGibbs gname gbounds gibbs ps d None (Some (gname (nth p ps d))) = gibbs (nth p ps d) (gbounds (nth p ps d)).
+Proof. exact (particleGibbs_by_name gname gbounds gibbs ps d p). Qed.
+Print Assumptions C11_particle_gibbs_by_name.
+
+Theorem C11_growth_inputs_equivariant {P A B C : Type} (gname : P -> nat) (gbounds : P -> A) (gibbs : P -> A -> B)
+        (gbeta : P -> C) (ps : list P) (d : P) (idx : list nat) (i : nat) :
+  i < length idx ->
+  growth_inputs gname gbounds gibbs gbeta (reorder d ps idx) d i =
+  growth_inputs gname gbounds gibbs gbeta ps d (nth i idx 0).
+Proof. exact (growth_inputs_reorder gname gbounds gibbs gbeta ps d idx i). Qed.
+Print Assumptions C11_growth_inputs_equivariant.
